@@ -82,6 +82,14 @@ fn check(id: &'static str, tier: Tier) -> i32 {
             let mut ctx = Ctx::new(id, tier, "exploration");
             props::conc::check_conc(&mut ctx, props::conc::cfg_c16(), props::conc::c16_strategy, props::conc::RULE_C16, 8, 600)
         }
+        "C14" => {
+            let mut ctx = Ctx::new(id, tier, "exploration");
+            props::evict::check(&mut ctx, props::evict::Which::C14)
+        }
+        "C15" => {
+            let mut ctx = Ctx::new(id, tier, "exploration");
+            props::evict::check(&mut ctx, props::evict::Which::C15)
+        }
         "C19" => {
             let mut ctx = Ctx::new(id, tier, "exploration");
             props::c19::check(&mut ctx)
@@ -105,6 +113,8 @@ fn replay(id: &'static str, path: &str) -> i32 {
         "C10" => props::c10::replay(path),
         "C09" => props::c09::replay(path),
         "C19" => props::c19::replay(path),
+        "C14" => props::evict::replay(props::evict::Which::C14, path),
+        "C15" => props::evict::replay(props::evict::Which::C15, path),
         "C03" => props::conc::replay(props::conc::cfg_c03(), path),
         "C04" => props::conc::replay(props::conc::cfg_c04(), path),
         "C16" => props::conc::replay(props::conc::cfg_c16(), path),
